@@ -51,6 +51,47 @@ def find_table(name: str, scopes: list) -> Optional[ast.AST]:
     return None
 
 
+def normalise_get_dispatch(stmts: list, var: str, scopes: list) -> list:
+    """`x = TABLE.get(var)` directly followed by `if x is not None:` / `if x:` (TABLE a dict display without None / falsy
+    values) is the membership dispatch `if var in TABLE: x = TABLE[var]; ...` -- rewritten to that form so that the
+    per-key specialiser and the arm finders see one shape.  Other statements are returned unchanged."""
+    out = []
+    i = 0
+    while i < len(stmts):
+        st = stmts[i]
+        nxt = stmts[i + 1] if i + 1 < len(stmts) else None
+        if isinstance(st, ast.Assign) and len(st.targets) == 1 and isinstance(st.targets[0], ast.Name) and isinstance(nxt, ast.If) \
+                and isinstance(st.value, ast.Call) and isinstance(st.value.func, ast.Attribute) and st.value.func.attr == "get" \
+                and isinstance(st.value.func.value, (ast.Name, ast.Dict)) and len(st.value.args) == 1 and isinstance(st.value.args[0], ast.Name) \
+                and st.value.args[0].id == var and not st.value.keywords:
+            x = st.targets[0].id
+            recv = st.value.func.value
+            tbl = find_table(recv.id, scopes) if isinstance(recv, ast.Name) else recv
+            t = nxt.test
+            positive = (isinstance(t, ast.Name) and t.id == x) or (
+                isinstance(t, ast.Compare) and len(t.ops) == 1 and isinstance(t.ops[0], ast.IsNot) and isinstance(t.left, ast.Name)
+                and t.left.id == x and isinstance(t.comparators[0], ast.Constant) and t.comparators[0].value is None)
+            truthy_vals = isinstance(tbl, ast.Dict) and all(
+                (isinstance(v, ast.Constant) and bool(v.value)) or isinstance(v, (ast.Tuple, ast.Attribute, ast.Name, ast.Lambda)) for v in tbl.values)
+            used_later = any(isinstance(n, ast.Name) and n.id == x for later in stmts[i + 2:] for n in ast.walk(later)) \
+                or any(isinstance(n, ast.Name) and n.id == x for o in nxt.orelse for n in ast.walk(o))
+            if positive and truthy_vals and not used_later:
+                look = ast.Assign(targets=[ast.Name(id=x, ctx=ast.Store())],
+                                  value=ast.Subscript(value=copy.deepcopy(recv), slice=ast.Name(id=var, ctx=ast.Load()), ctx=ast.Load()))
+                ast.copy_location(look, st)
+                new = ast.If(test=ast.Compare(left=ast.Name(id=var, ctx=ast.Load()), ops=[ast.In()],
+                                              comparators=[copy.deepcopy(recv)]),
+                             body=[look] + list(nxt.body), orelse=list(nxt.orelse))
+                ast.copy_location(new, nxt)
+                ast.fix_missing_locations(new)
+                out.append(new)
+                i += 2
+                continue
+        out.append(st)
+        i += 1
+    return out
+
+
 def specialise(stmts: list, var: str, key_text: str, scopes: list, same_key: Optional[Callable] = None) -> list:
     """`stmts` rewritten for `var == <key>`; key_text is the source text of the key (e.g. "'L'" or
     "NodeKind.TEMPLATE"); same_key(node) may override the comparison of a key expression with the key."""
@@ -86,6 +127,14 @@ def specialise(stmts: list, var: str, key_text: str, scopes: list, same_key: Opt
         def visit_Name(self, n):
             if isinstance(n.ctx, ast.Load) and n.id in self.env:
                 return copy.deepcopy(self.env[n.id])
+            return n
+
+        def visit_Call(self, n):
+            self.generic_visit(n)
+            # getattr(obj, "name") with a constant name is the attribute
+            if isinstance(n.func, ast.Name) and n.func.id == "getattr" and len(n.args) == 2 and isinstance(n.args[1], ast.Constant) \
+                    and isinstance(n.args[1].value, str) and n.args[1].value.isidentifier() and not n.keywords:
+                return ast.copy_location(ast.Attribute(value=n.args[0], attr=n.args[1].value, ctx=ast.Load()), n)
             return n
 
         def visit_IfExp(self, n):
